@@ -298,11 +298,11 @@ func PolicyCorpus(tier string, seed int64) []Policy {
 		{2, []any{0, 1, 2}},
 		{1, []any{&gate{2, []any{0, 1}}, &gate{2, []any{2, 3}}}},
 		{2, []any{&gate{1, []any{0, 1}}, &gate{1, []any{2, 3}}}},
-		{1, []any{&gate{2, []any{0, 1}}, &gate{2, []any{0, 2}}}},               // leaf 0 repeated
-		{2, []any{0, &gate{1, []any{1, 2}}, &gate{2, []any{1, 3}}}},           // leaf 1 repeated
-		{2, []any{&gate{2, []any{0, 1}}, &gate{1, []any{2, 0}}, 3}},           // leaf 0 repeated
-		{1, []any{&gate{3, []any{0, 1, 2}}, &gate{2, []any{2, 3}}}},           // leaf 2 repeated
-		{2, []any{&gate{2, []any{0, 1, 2}}, &gate{2, []any{1, 2, 3}}}},        // two repeated
+		{1, []any{&gate{2, []any{0, 1}}, &gate{2, []any{0, 2}}}},       // leaf 0 repeated
+		{2, []any{0, &gate{1, []any{1, 2}}, &gate{2, []any{1, 3}}}},    // leaf 1 repeated
+		{2, []any{&gate{2, []any{0, 1}}, &gate{1, []any{2, 0}}, 3}},    // leaf 0 repeated
+		{1, []any{&gate{3, []any{0, 1, 2}}, &gate{2, []any{2, 3}}}},    // leaf 2 repeated
+		{2, []any{&gate{2, []any{0, 1, 2}}, &gate{2, []any{1, 2, 3}}}}, // two repeated
 	}
 	for i, g := range gates {
 		ps = append(ps, gatePolicy(g, idPools[i%len(idPools)][:4]))
